@@ -31,7 +31,7 @@ Proof.
       exists fo; split; auto. rewrite HH; auto.
     + auto.
     + intros Hw. specialize (G3 Hw). destruct HP as [E|[E1 E2]]; [|congruence].
-      unfold wk_inv in *. rewrite E, HM, HF. auto.
+      rewrite E. auto.
   - destruct gs; cbn [ghost_inv] in *; auto.
     + rewrite HM, HD, HC; auto.
     + rewrite HM, HD, HW; auto.
@@ -45,4 +45,19 @@ Proof.
         -- right. split; auto. destruct D2 as [id [fo [F1 [F2 [F3 F4]]]]]. exists id, fo. repeat split; auto.
            rewrite HH; auto.
       * destruct HG as [e [E1 [E2 [E3 [E4 [E5 E6]]]]]]. exists e. repeat split; auto. intro; apply HU; auto.
+Qed.
+
+(* gen_inv only looks at k's memory entry, its flusher entry, whether it is on disk *)
+Lemma gen_inv_transfer : forall s s' k,
+  get k (mem s') = get k (mem s) ->
+  get k (fblobs s') = get k (fblobs s) ->
+  (get k (disk s) = None -> get k (disk s') = None) ->
+  (forall id, get k (fblobs s) = Some id -> get id (heap s') = get id (heap s)) ->
+  nxt s <= nxt s' -> wpc s' = wpc s ->
+  gen_inv s k -> gen_inv s' k.
+Proof.
+  intros s s' k HM HF HD HH HN HP [G1 [G2 G3]]. unfold gen_inv. rewrite HM, HF, HP. split; [|split]; auto.
+  - intros id Hid. destruct (G1 id Hid) as [A [[fo [B C]] D]]. split; [lia|]. split; auto.
+    exists fo; split; auto. rewrite HH; auto.
+  - intros m A B. destruct (G2 m A B) as [X [Y Z]]. auto.
 Qed.
